@@ -85,6 +85,8 @@ Atoms(t) == CASE t = "w3"     -> <<W("abc")>>
               [] t = "tquote" -> <<Q, Q, Q>>
               [] t = "bslash" -> <<BS>>
 
+ASSUME Alphabet \subseteq TokenNames
+
 Expand(toks) == FlattenSeq([i \in 1..Len(toks) |-> Atoms(toks[i])])
 TextOf(as) == FoldLeft(LAMBDA acc, a : acc \o a.s, "", as)
 IsBlank(a) == a.k \in {"sp", "tab", "nl"}
@@ -133,6 +135,7 @@ KindNames == {"stmt", "stmt_t", "und", "imp", "pass", "cmt", "deco", "def", "cla
 GapNames  == {"0", "1", "2", "3", "4", "2s", "3s"}        \* "ks": k blank lines that carry 4 spaces each
 GapN(g)  == CASE g = "0" -> 0 [] g = "1" -> 1 [] g = "2" -> 2 [] g = "3" -> 3 [] g = "4" -> 4 [] g = "2s" -> 2 [] g = "3s" -> 3
 GapSp(g) == g \in {"2s", "3s"}
+ASSUME Kinds \subseteq KindNames /\ Gaps \subseteq GapNames
 Opens(k) == k \in {"def", "class", "if"}
 Item == [kind : Kinds, lvl : 0..MaxLvl, gap : Gaps]
 CanFollow(its, it) ==
